@@ -48,8 +48,10 @@ def _df(f):
     return d
 
 
-def truth_spectra(rng, f, th, lead_shape):
-    """Ground-truth spectra: sums of directional lobes, each position different."""
+def truth_spectra(rng, f, th, lead_shape, zeros=False):
+    """Ground-truth spectra: sums of directional lobes, each position different. zeros=True: in a third of the calls the
+    flanks below a fraction of the peak are cut to exactly 0.0 (truncated spreading, sheltered sectors, calm bins) - a zero
+    density is a value like any other in the conventions that store densities linearly."""
     n = int(np.prod(lead_shape)) if lead_shape else 1
     out = []
     for _ in range(n):
@@ -61,6 +63,9 @@ def truth_spectra(rng, f, th, lead_shape):
             g = (np.cos(np.radians(th - dm) / 2) ** 2) ** float(rng.uniform(2, 20))
             E += float(10 ** rng.uniform(-2, 0.5)) * np.outer(ef, g)
         out.append(E)
+    if zeros and rng.random() < 0.33:
+        for E in out:
+            E[E < float(10 ** rng.uniform(-3, -0.5)) * E.max()] = 0.0
     return np.array(out).reshape(tuple(lead_shape) + (len(f), len(th)))
 
 
@@ -80,7 +85,7 @@ def ww3(rng, with_wind=True, with_depth=True, lonlat_time=True, order=None):
     nt, ns, nf, nd = int(rng.integers(1, 4)), int(rng.integers(1, 4)), int(rng.integers(3, 12)), int(rng.choice([8, 12, 24, 36, 7, 9, 15, 25, 35]))
     f = _freqs(rng, nf)
     th_from, dd = _dirs(rng, nd, order or str(rng.choice(["ww3", "ascending", "rolled"])))
-    E = truth_spectra(rng, f, th_from, (nt, ns))
+    E = truth_spectra(rng, f, th_from, (nt, ns), zeros=True)
     th_to = (th_from + 180.0) % 360.0
     ds = xr.Dataset()
     ds["efth"] = (("time", "station", "frequency", "direction"), (E * R2D).astype("float32"))   # m2 s rad-1
@@ -112,7 +117,7 @@ def ncswan(rng, with_wind=True, with_depth=True, lonlat_time=False, order=None, 
     nt, ns, nf, nd = int(rng.integers(1, 4)), int(rng.integers(1, 4)), int(rng.integers(3, 12)), int(rng.choice([8, 12, 24, 36, 7, 9, 15, 25, 35]))
     f = _freqs(rng, nf)
     th_from, dd = _dirs(rng, nd, order or str(rng.choice(["ascending", "descending", "rolled"])))
-    E = truth_spectra(rng, f, th_from, (nt, ns))
+    E = truth_spectra(rng, f, th_from, (nt, ns), zeros=True)
     rad = np.radians(th_from)
     if negative_dirs if negative_dirs is not None else rng.random() < 0.5:
         rad = np.where(rad > np.pi, rad - 2 * np.pi, rad)    # SWAN writes directions in (-pi, pi]
@@ -145,7 +150,7 @@ def wwm(rng, with_wind=True, with_depth=True, order=None):
         nf = nd          # square spectral grids: a factor paired with the wrong axis does not fail on shape
     f = _freqs(rng, nf)
     th_from, dd = _dirs(rng, nd, order or str(rng.choice(["ascending", "descending", "rolled"])))
-    E = truth_spectra(rng, f, th_from, (nt, ns))
+    E = truth_spectra(rng, f, th_from, (nt, ns), zeros=True)
     sig = 2 * np.pi * f
     # E(sigma, theta_rad) = E(f, theta_deg) * (df/dsigma) * (ddeg/drad) ; action N = E(sigma,theta)/sigma
     Esig = E / (2 * np.pi) * R2D
